@@ -145,6 +145,23 @@ pub fn run_c08(ctx: &Ctx) -> i32 {
                 t.value = small_value(rng).min(U256::from(10u64).pow(U256::from(18u8)));
             }
         }
+        // a value-bearing create transaction whose target address already holds a balance that
+        // the endowment pushes past 2^256-1: the creation must fail without moving or losing ether
+        if rng.chance(1, 12) {
+            if let Some(t) = c.txs.first_mut() {
+                let nonce = c.world.accounts.get(&t.caller).map(|a| a.nonce).unwrap_or(0);
+                let target = t.caller.create(t.nonce.unwrap_or(nonce));
+                t.to = None;
+                t.value = U256::from(1 + rng.below(1000));
+                t.data = initcode_returning(&[0x00]);
+                t.auth_list = None;
+                t.blob_hashes.clear();
+                t.max_fee_per_blob_gas = None;
+                t.gas_limit = t.gas_limit.max(200_000);
+                c.world.accounts.insert(target, Acct { balance: U256::MAX - U256::from(rng.below(500)), ..Default::default() });
+                c.txs.truncate(1);
+            }
+        }
     }, &[("c08_transactions_checked", 1000), ("c08_with_self_burn", 1), ("c08_with_destroyed_balance", 1)],
     "Identity checked after every executed transaction with exact integers: sum(balances after) + base_fee*gas_used (London+) + blob fee + ether removed by completed self-beneficiary SELFDESTRUCTs (monitor ground truth, discarded when the enclosing frame reverts) + balances of accounts deleted at the end of the transaction = sum(balances before).")
 }
